@@ -1,6 +1,7 @@
 import Driver.Util
 import Clem.Model.T3
 import Clem.Model.Sanitize
+import Clem.Model.T3Assemble
 
 open Lean Clem.T3
 
@@ -196,6 +197,38 @@ def hFloatLaws (j : Json) : R Json := do
     vals.all (fun c => !(ge a b && ge b c) || ge a c)))
   pure (jBool ok)
 
+def getSliceBudgets (j : Json) : R SliceBudgets :=
+  match optField j "sb" with
+  | none => pure .absent
+  | some (Json.str "absent") => pure .absent
+  | some (Json.str "notDict") => pure .notDict
+  | some (Json.str "noKey") => pure .noKey
+  | some o =>
+    match optField o "v" with
+    | none => pure (.key .none)
+    | some (Json.str _) => pure (.key .bad)
+    | some v => do pure (.key (.int (← v.getInt?)))
+
+/-- plan from a ctx: `deliberate` / `rag_once` on the bundle `assemble_bundle` builds (per-turn cap and slice budget
+taken from the ctx, everything else from the assembled bundle) -/
+def hAssemble (j : Json) : R Json := do
+  let rest ← getBundle (← fld j "bundle")
+  let perTurn ← intOr j "perTurn" Clem.Gen.T3Consts.bundleDefaultMaxOps
+  let sb ← getSliceBudgets j
+  let hits ← getHits j "hits"
+  let b := assembled perTurn sb rest
+  let plan := deliberate b
+  let slice := match forwardSlice sb with
+    | .int i => jInt i
+    | _ => Json.null
+  pure (jObj [("slice", slice), ("ops", jArr (plan.map jOp)),
+              ("rag", jArr ((ragOnce b plan (fun _ => hits) false).ops.map jOp))])
+
+def hAssembleMon (j : Json) : R Json := do
+  let perTurn ← intOr j "perTurn" Clem.Gen.T3Consts.bundleDefaultMaxOps
+  let sb ← getSliceBudgets j
+  pure (jBool (withinRequestedCap perTurn sb (← getOps j "ops")))
+
 def hTurn (j : Json) : R Json := do
   let b ← getBundle (← fld j "bundle")
   let plan ← getOps j "plan"
@@ -268,7 +301,7 @@ def hSanitizeMon (j : Json) : R Json := do
 
 def routes : List (String × (Json → R Json)) :=
   [("c13.delib", hDelib), ("c13.delib.mon", hDelibMon), ("c13.rag", hRag), ("c13.rag.mon", hRagMon),
-   ("c13.speak", hSpeak), ("c13.speak.mon", hSpeakMon), ("c13.trunc", hTrunc), ("c13.isspace", hIsSpace), ("c13.tokcount", hTokCount), ("c13.floatlaws", hFloatLaws),
+   ("c13.speak", hSpeak), ("c13.speak.mon", hSpeakMon), ("c13.trunc", hTrunc), ("c13.isspace", hIsSpace), ("c13.assemble", hAssemble), ("c13.assemble.mon", hAssembleMon), ("c13.tokcount", hTokCount), ("c13.floatlaws", hFloatLaws),
    ("c13.turn", hTurn), ("c13.sanitize", hSanitize), ("c13.sanitize.mon", hSanitizeMon)]
 
 end Driver.HT3
